@@ -34,15 +34,25 @@ pub fn new_bounded<T: Send + Sized>(size: usize) -> (SharedSender<T>, SharedRece
     (SharedSender(s.clone()), SharedReceiver(s))
 }
 
+/// glommio's `connect` completes when the peer - usually on another executor - has connected
+/// *or has been dropped*, so the calling task may be suspended here and other tasks of the same
+/// executor run in between. The stub has nothing to wait for (a later `send` reports `Closed` if
+/// the receiver is gone); it suspends the task once on a coin drawn from the schedule PRNG.
+async fn connect_point() {
+    if engine::sched_rand(3) == 0 {
+        engine::log("connect-pend", 0, 0);
+        crate::yield_if_needed().await;
+    }
+}
 impl<T: Send + Sized> SharedSender<T> {
-    /// glommio: completes when the peer has connected *or has been dropped*; the stub
-    /// connects at once (a later `send` reports `Closed` if the receiver is gone).
     pub async fn connect(self) -> ConnectedSender<T> {
+        connect_point().await;
         ConnectedSender(self)
     }
 }
 impl<T: Send + Sized> SharedReceiver<T> {
     pub async fn connect(self) -> ConnectedReceiver<T> {
+        connect_point().await;
         ConnectedReceiver(self)
     }
 }
